@@ -16,6 +16,7 @@ import (
 	"crsim/simrt"
 
 	"github.com/grafana/carbon-relay-ng/aggregator"
+	"github.com/grafana/carbon-relay-ng/cfg"
 	"github.com/grafana/carbon-relay-ng/destination"
 	"github.com/grafana/carbon-relay-ng/matcher"
 	"github.com/grafana/carbon-relay-ng/rewriter"
@@ -121,12 +122,27 @@ func buildTable(s *simrt.Sim, nw *simnet.Net, tp *TablePlan) (*builtTable, error
 	}
 	bt := &builtTable{Plan: tp, Caps: map[int]*capRoute{}, Eps: map[string]*Endpoint{}, DestCfg: map[string]destCfg{}, Rings: map[int]*RefRing{}}
 	bt.T = table.New(tc)
+	// entries with a single option can be written in the config file's `blacklist = [ "prefix x", "regex y" ]` form: when all
+	// of them are, they take the real configuration path (cfg.InitBlacklist), otherwise the table API
+	var legacy []string
 	for _, b := range tp.Blacklist {
-		m, err := mkMatcher(b)
-		if err != nil {
+		if l, ok := b.legacyBlacklistLine(); ok {
+			legacy = append(legacy, l)
+		}
+	}
+	if len(legacy) == len(tp.Blacklist) && len(legacy) > 0 {
+		if err := cfg.InitBlacklist(bt.T, cfg.Config{BlackList: legacy}); err != nil {
 			return nil, err
 		}
-		bt.T.AddBlacklist(&m)
+		s.Probe("table.blacklist_via_config_lines")
+	} else {
+		for _, b := range tp.Blacklist {
+			m, err := mkMatcher(b)
+			if err != nil {
+				return nil, err
+			}
+			bt.T.AddBlacklist(&m)
+		}
 	}
 	for _, r := range tp.Rewriters {
 		rw, err := rewriter.New(r.Old, r.New, r.Not, r.Max)
@@ -227,6 +243,10 @@ type tableRunPlan struct {
 	Clients [][]string `json:"client_lines_head"`
 	NLines  int        `json:"lines"`
 	Via     string     `json:"via"` // direct | listener
+	// filter changes applied through the table API (modRoute / modDest) after the table was built and before any traffic:
+	// Table above is the result, the table is built from the plan as it was before them
+	Mods []c18Op `json:"filter_changes_before_traffic,omitempty"`
+	pre  *TablePlan
 }
 
 func genTablePlan(g *simrt.Choices, prop string) TablePlan {
@@ -336,6 +356,35 @@ func scenTable(x *Exec, prop string) {
 			p.Table.Aggs[i].Wait = []uint{1, 2}[g.Pick(2)]
 		}
 	}
+	p.pre = cloneTP(&p.Table)
+	if g.Bool(0.4) {
+		var real []int
+		for ri, r := range p.Table.Routes {
+			if r.Type != "capture" {
+				real = append(real, ri)
+			}
+		}
+		for i, n := 0, 1+g.Intn(3); i < n && len(real) > 0; i++ {
+			ri := real[g.Pick(len(real))]
+			r := &p.Table.Routes[ri]
+			op := c18Op{Kind: "modRoute", Key: r.Key, F: genFilter(g, 0.4)}
+			for _, k := range filterKeys {
+				if g.Bool(0.35) {
+					op.Set = append(op.Set, k)
+				}
+			}
+			if len(op.Set) == 0 {
+				op.Set = []string{filterKeys[g.Pick(6)]}
+			}
+			if r.Type != "consistentHashing" && len(r.Dests) > 0 && g.Bool(0.5) {
+				op.Kind, op.Idx = "modDest", g.Intn(len(r.Dests))
+				r.Dests[op.Idx].F = mergeFilter(r.Dests[op.Idx].F, op.F, op.Set)
+			} else {
+				r.F = mergeFilter(r.F, op.F, op.Set)
+			}
+			p.Mods = append(p.Mods, op)
+		}
+	}
 	nclients := 1 + g.Intn(3)
 	p.NLines = 20 + g.Intn(180)
 	if x.Case.Tier == "thorough" && g.Bool(0.2) {
@@ -380,7 +429,22 @@ func scenTable(x *Exec, prop string) {
 			if p.Timeful {
 				tableFlushMs = 2000 // long simulated runs: keep the number of timer events affordable
 			}
-			bt, berr = buildTable(s, nw, tp)
+			bt, berr = buildTable(s, nw, p.pre)
+			if berr == nil {
+				for _, op := range p.Mods {
+					var err error
+					if op.Kind == "modRoute" {
+						err = bt.T.UpdateRoute(op.Key, filterOpts(op.F, op.Set))
+					} else {
+						err = bt.T.UpdateDestination(op.Key, op.Idx, filterOpts(op.F, op.Set))
+					}
+					if err != nil {
+						s.Fail(prop+":update-rejected", "%+v was rejected: %v", op, err)
+					}
+					s.Probe("table.filter_changed_at_runtime")
+				}
+				bt.Plan = tp
+			}
 			simrt.Yield("boot")
 			started = true
 			cond.Broadcast()
@@ -388,6 +452,9 @@ func scenTable(x *Exec, prop string) {
 		cond.Wait(func() bool { return started }, time.Time{})
 		if berr != nil {
 			s.Infra("table construction failed: %v", berr)
+			return
+		}
+		if s.Failed() {
 			return
 		}
 		bt.waitOnline()
@@ -621,4 +688,19 @@ func checkTableRun(x *Exec, s *simrt.Sim, prop string, bt *builtTable, lines [][
 	if drops > 0 {
 		s.Probe("table.runs_with_drops")
 	}
+}
+
+// legacyBlacklistLine renders a filter with exactly one option as a line of the config file's blacklist array.
+func (f FilterSpec) legacyBlacklistLine() (string, bool) {
+	type kv struct{ k, v string }
+	var set []kv
+	for _, e := range []kv{{"prefix", f.Prefix}, {"notPrefix", f.NotPrefix}, {"sub", f.Sub}, {"notSub", f.NotSub}, {"regex", f.Regex}, {"notRegex", f.NotRegex}} {
+		if e.v != "" {
+			set = append(set, e)
+		}
+	}
+	if len(set) != 1 || strings.ContainsAny(set[0].v, "\n") {
+		return "", false
+	}
+	return set[0].k + " " + set[0].v, true
 }
